@@ -83,7 +83,7 @@ func ValueToJson(arena *fastjson.Arena, t octosql.Type, value octosql.Value) *fa
 	case octosql.TypeIDString:
 		return arena.NewString(value.Str)
 	case octosql.TypeIDTime:
-		return arena.NewString(value.Time.Format(time.RFC3339))
+		return arena.NewString(value.Time.Format(time.RFC3339Nano))
 	case octosql.TypeIDDuration:
 		return arena.NewString(value.Duration.String())
 	case octosql.TypeIDList:
